@@ -223,7 +223,10 @@ func runOptCase(o *Oracle, d json.RawMessage, oc *Outcome) {
 	// entry point 2: Minimize
 	s2 := solver.New(c.problem())
 	s2.CuttingPlanes = c.CP
+	obs2 := watchAppends(s2)
 	cost2 := s2.Minimize()
+	s2.VerifSetAppendHook(nil)
+	boundMirrorMinimize(o, oc, *obs2, coefs, lits, cost2)
 	if cost2 == -1 && !(sat && best == -1) {
 		judge("solver.Minimize", solver.Unsat, -1, nil)
 	} else {
@@ -371,5 +374,63 @@ func boundMirror(o *Oracle, oc *Outcome, entry string, obs []appendObs, r optRun
 	}
 	if len(obs) > 0 {
 		oc.Tag("bound-mirror-compared")
+	}
+}
+
+// boundMirrorMinimize: Minimize streams nothing, so the cost each bound constraint was built for is
+// read back from its degree (degree = posSum - cost + 1, GS.OptimS.goBoundS); the constraint must
+// then be the mirror's for that cost, the costs must strictly decrease (streamS_strictly_decreasing)
+// and stay above the returned one.
+func boundMirrorMinimize(o *Oracle, oc *Outcome, obs []appendObs, coefs, lits []int, result int) {
+	if len(obs) == 0 {
+		return
+	}
+	entry := "solver.Minimize"
+	terms := make([]int, 0, 2*len(lits))
+	for i := range lits {
+		terms = append(terms, coefs[i], lits[i])
+	}
+	mm, err := parseIntsLine(o.Ask("costbounds " + encInts(terms)))
+	if err != nil || len(mm) != 2 {
+		oc.Fail("corr", "bound-mirror", entry, "mirror answered %v to costbounds", mm)
+		return
+	}
+	posSum := mm[1]
+	prev := 0
+	for k, ob := range obs {
+		cost := posSum - ob.c.AtLeast + 1
+		if k > 0 && cost >= prev {
+			oc.Fail("corr", "bound-mirror", entry, "bound constraints %d and %d are for costs %d then %d: not decreasing", k-1, k, prev, cost)
+			return
+		}
+		prev = cost
+		if cost < result && !(result == -1) {
+			oc.Fail("corr", "bound-mirror", entry, "bound constraint %d is for cost %d, below the returned cost %d", k, cost, result)
+			return
+		}
+		want, err := parseIntsLine(o.Ask(fmt.Sprintf("gobounds %s | %d", encInts(terms), cost)))
+		oc.Corr++
+		if err != nil || len(want)%2 != 1 {
+			oc.Fail("corr", "bound-mirror", entry, "mirror answered %v", want)
+			return
+		}
+		type term struct{ w, l int }
+		ms := map[term]int{}
+		for i := 1; i+1 < len(want); i += 2 {
+			ms[term{want[i], want[i+1]}]++
+		}
+		ok := ob.pb && ob.c.AtLeast == want[0] && len(ob.c.Lits) == (len(want)-1)/2
+		for i := range ob.c.Lits {
+			ms[term{ob.c.Weights[i], ob.c.Lits[i]}]--
+		}
+		for _, v := range ms {
+			if v != 0 {
+				ok = false
+			}
+		}
+		if !ok {
+			oc.Fail("corr", "bound-mirror", entry, "bound constraint %d: Go appended %v*%v >= %d, the mirror GS.OptimS.goBoundS gives [degree c l ...] %v", k, ob.c.Weights, ob.c.Lits, ob.c.AtLeast, want)
+			return
+		}
 	}
 }
